@@ -302,34 +302,8 @@ theorem seqRel_cons (o n : ObjId) (rest : List (ObjId × ObjId)) {t t1 t' : BkTa
   · rw [← p1]; exact SubApply.skip p2
   · rw [p1a]; rw [p1b] at p2; exact SubApply.take p2
 
-theorem moveLoop_seqRel (bks : List Nat) : ∀ (pairs : List (ObjId × ObjId)) (st : MoveSt),
-    SeqRel pairs st.bm (pairs.foldl (moveStep bks) st).bm := by
-  intro pairs
-  induction pairs with
-  | nil => intro st; exact ⟨rfl, fun _ b h => ⟨b, h, rfl, SubApply.nil _⟩⟩
-  | cons p rest ih =>
-    intro st
-    obtain ⟨o, n⟩ := p
-    simp only [List.foldl_cons]
-    apply seqRel_cons o n rest _ (ih _)
-    unfold moveStep
-    simp only
-    have hbm : (moveObj st (o, n)).bm = st.bm := by unfold moveObj; split <;> rfl
-    split
-    · simp only [hbm]; exact renumberBookmarks_rel bks st.bm o n
-    · rw [hbm]; exact tRel_refl o n st.bm
-
-/-- **C10, bookmarks are never sent to a wrong object (partial: no chaining).**  For every bookmark table
-(any shape, shared or missing children) and every pair list with distinct old ids in which no new id equals
-a later old id, after the move loop every bookmark keeps its children and its target is either what it was
-or its correct new name `rho target`. -/
-theorem bookmarks_safe_partial (bks : List Nat) (os : Objects) (bm : BkTable) (pairs : List (ObjId × ObjId))
-    (hn : (pairs.map (·.1)).Nodup) (hc : NoChain pairs) :
-    ∀ i b, bm.get i = some b → ∃ b', (movePass bks os bm pairs).bm.get i = some b' ∧ b.children = b'.children ∧
-      (b'.page = b.page ∨ b'.page = rhoFn pairs b.page) := by
-  intro i b hb
-  have h := moveLoop_seqRel bks pairs ⟨os, [], [], bm⟩
-  obtain ⟨b', hb', hc', hs⟩ := h.2 i b hb
-  exact ⟨b', by unfold movePass; exact hb', hc', subApply_safe pairs hn hc _ _ hs⟩
+/- `moveLoop_seqRel` / `bookmarks_safe_partial` (about the former pair-by-pair renaming inside the move loop)
+   were superseded by the exact `Lopdf.bookmarks_follow_rho` (Thm/C10.lean) when lopdf commit 69805be made
+   `renumber_objects_with` rename the bookmark targets once per pass through the complete map. -/
 
 end Lopdf.Ren
